@@ -54,6 +54,11 @@ static const cfg_t cfgs[] = {
     { "FIFO_WAIT/MPSC BASIC_WAIT@ES1: named yielding ULT by primary, tasklet by X",
       1, FIFOW, MPSC, S_BASIC_WAIT, SRV_ES1, 2,
       { { UN, B_YIELD, CR_PRIMARY, 0, 0 }, { TU, B_RET, CR_EXT, 0, 0 } }, 0 },
+    { "FIFO_WAIT/MPSC BASIC_WAIT@ES1: primary creates 2 unnamed ULTs (one yields) "
+      "+ unnamed tasklet, joins the stream", 1, FIFOW, MPSC, S_BASIC_WAIT, SRV_ES1,
+      3,
+      { { UU, B_YIELD, CR_PRIMARY, 0, 0 }, { UU, B_RET, CR_PRIMARY, 0, 0 },
+        { TU, B_RET, CR_PRIMARY, 0, 0 } }, 0 },
     { "FIFO/MPMC PRIO(3 pools)@ES1: named ULT p2, unnamed ULT+child p0 by X, "
       "named tasklet p1", 1, FIFO, MPMC, S_PRIO, SRV_ES1, 3,
       { { UN, B_RET, CR_PRIMARY, 2, 0 }, { UU, B_CHILD, CR_EXT, 0, 0 },
